@@ -5,7 +5,7 @@ from .common import *   # noqa: F401,F403
 from . import C11 as c11
 from . import instr_gen as ig
 
-LEAF = ['Leaf_tick', 'Leaf_query', 'Leaf_bpm', 'Leaf_timed', 'Leaf_note', 'Leaf_build', 'Leaf_dispatch', 'Leaf_tracks', 'Leaf_chart', 'Leaf_fromfile']      # translated functions this property's model relies on (Tie/<name>.v)
+LEAF = ['Leaf_tick', 'Leaf_query', 'Leaf_bpm', 'Leaf_timed', 'Leaf_note', 'Leaf_build', 'Leaf_dispatch', 'Leaf_tracks', 'Leaf_chart', 'Leaf_fromfile', 'Leaf_meta']      # translated functions this property's model relies on (Tie/<name>.v)
 RULE = ("(a) tempo maps: resolution in {1,2,3,7,96,100,192,480,960,random<=10^6}, 1-40 segments (thorough: up to 400), n in {1,999,1000,1001,1118,20548,117000,120000,129200,10^9,random}, "
         "gaps in {1,2,R/3,R,10^5}; queried through bpm_events.timestamp_at_tick(t): 0, every boundary, boundary+-1, far past the end, random; judged inside Coq against the exact rational "
         "time: |us - exact| <= (segments traversed) * (1/2 us + 1 ns), index = last event at or before the tick, tick 0 -> 0 exactly; "
